@@ -4,7 +4,7 @@ import json, subprocess, sys
 
 CHECKS = {
  # id: (level, technique, level text, level note, design_ref)
- "C15": ("exploration", "differential monitor: integer reference formatter + three-way grammar oracle over exhaustive short strings and ranges and seeded random inputs",
+ "C15": ("exploration", "differential monitor: integer reference formatter + three-way grammar oracle over exhaustive short strings and ranges and seeded random inputs; amount strings of very large coins read back through the API layer (GetUtxo, GetWalletBalance, GetAddressBalance)",
          "every formatted/parsed value of the real api.StringToAmount / AmountToString / masswallet.AmountToString is compared with an independent integer reference; exhaustive over [0,2e6], [max-1e6,max+1e3], 10^k±1 and all strings of length ≤5 (quick) / ≤7 (thorough) over the hostile alphabet, random elsewhere",
          "trusts the 40-line reference (refFormat/c15Classify) and massutil.MaxAmount as the supply limit; strings \"\", \".\", \"1.\", \".5\" treated as unspecified", "§5 C15"),
 }
@@ -81,7 +81,7 @@ CHECKS["C07"] = ("exploration", "reference-ledger monitor on a wallet restored f
   "the original live-watching wallet is represented by the reference ledger (C01); on the long chains a reorganisation from 1-3 blocks below the committed rescan cursor up to the tip is injected between two batches; a stalled import with all goroutines idle is a violation", "§5 C07")
 
 CHECKS["C08"] = ("exploration", "raw residue scan of the closed wallet database with an explicit allowed-residue rule + reference-ledger monitor on survivors + build/sign probes + re-import of the removed mnemonic; worker parked between removal rounds for a restart, and between the two removal phases while blocks pay and spend the victim's coins",
-  "after a removal in a multi-wallet shared history (pending transactions, staking/binding records, > 20 000 credits for multi-round removal, restart between rounds) the database must hold no entry naming the removed wallet's id, addresses or script hashes except pending transactions a survivor needs; survivors must equal the ledger and still build and sign; the mnemonic must import again and equal the ledger",
+  "after a removal in a multi-wallet shared history (pending transactions, staking/binding records, > 20 000 credits for multi-round removal, restart between rounds) the database must hold no entry naming the removed wallet's id, addresses or script hashes except pending transactions a survivor needs; survivors must equal the ledger, keep the pending-spend flags of the coins their still-pending transactions spend, and still build and sign; the mnemonic must import again and equal the ledger",
   "allowed residue is defined before looking at the code's result; refusal cases (wrong passphrase, importing) are covered by C05/C07", "§5 C08")
 
 NOT_APPLICABLE = {}
